@@ -15,6 +15,9 @@
 #include <unistd.h>
 #include <alloca.h>
 #include <malloc.h>
+#include <exception>
+#include <sys/personality.h>
+#include <ucontext.h>
 
 #if defined(__SANITIZE_ADDRESS__)
 #define SIM_SANITIZED 1
@@ -519,6 +522,7 @@ static void arenaFree(void *p) {
   h->magic = 0;
   if (g_live[h->slot] > 0) g_live[h->slot]--;
   if (h->epoch != g_epoch || (int)h->slot != g_slot) return;           // block of an older epoch
+  if (g_active && g_cfg.scribbleFree && g_cfg.mode != STALE) { fill((char *)p, (size_t)h->size16 * 16, 0x5C81BB1Eull + g_ordinal); counters.scribbled++; }
   g_harnessDepth++;
   if (h->size16 <= SMALL) g_free[h->size16].push_back((char *)p);
   else g_freeBig->emplace_back(h->size16, (char *)p);
@@ -560,38 +564,72 @@ void operator delete[](void *p, const std::nothrow_t &) noexcept { sim::heap::re
 //=============================================================================================
 namespace sim {
 namespace {
-__attribute__((noinline)) void dirtyBelow(int mode, size_t bytes, uint64_t seed) {
-  volatile char *p = (volatile char *)alloca(bytes);
+// The code under test runs on a stack of its own at a fixed address, so that what it finds there -
+// the planned fill, and later the residue of its own earlier frames (return addresses, saved
+// registers, pointers to its locals) - is the same in the batch worker and in a fresh replay
+// process, whatever their command lines, environments and call depths are.  (The process runs with
+// address-space randomisation off, see disableAslrOnce(), so code and library addresses repeat too.)
+constexpr uintptr_t kStackAt = 0x6e0000000000ull;
+constexpr size_t kStackSize = 64ull << 20;
+char *g_stack = nullptr;
+bool g_onPrivateStack = false;
+ucontext_t g_mainCtx, g_runCtx;
+const std::function<void()> *g_runFn = nullptr;
+std::exception_ptr g_runExc;
+
+void trampoline() {
+  try { (*g_runFn)(); } catch (...) { g_runExc = std::current_exception(); }
+}
+
+void fillStack(char *p, int mode, size_t bytes, uint64_t seed) {
   uint64_t s = seed;
   switch (mode) {
-    case STACK_ZERO: for (size_t k = 0; k < bytes; k++) p[k] = 0; break;
-    case STACK_ONES: for (size_t k = 0; k < bytes; k++) p[k] = (char)0xFF; break;
+    case STACK_CLEAN:
+    case STACK_ZERO: std::memset(p, 0, bytes); break;
+    case STACK_ONES: std::memset(p, 0xFF, bytes); break;
     case STACK_POINTERISH:
-      for (size_t k = 0; k + 8 <= bytes; k += 8) {
-        uint64_t v = 0x6f0000000000ull + (splitmix64(s) & 0xFFFFFF8ull);
-        for (int b = 0; b < 8; b++) p[k + (size_t)b] = (char)(v >> (8 * b));
-      }
+      for (size_t k = 0; k + 8 <= bytes; k += 8) { uint64_t v = 0x6f0000000000ull + (splitmix64(s) & 0xFFFFFF8ull); std::memcpy(p + k, &v, 8); }
       break;
     default:
-      for (size_t k = 0; k + 8 <= bytes; k += 8) {
-        uint64_t v = splitmix64(s);
-        for (int b = 0; b < 8; b++) p[k + (size_t)b] = (char)(v >> (8 * b));
-      }
+      for (size_t k = 0; k + 8 <= bytes; k += 8) { uint64_t v = splitmix64(s); std::memcpy(p + k, &v, 8); }
   }
-  asm volatile("" ::"r"(p) : "memory");
-}
-__attribute__((noinline)) void callShifted(size_t shift, const std::function<void()> &f) {
-  volatile char *p = (volatile char *)alloca(shift + 16);
-  p[0] = 0;
-  asm volatile("" ::"r"(p) : "memory");
-  f();
-  asm volatile("" ::"r"(p) : "memory");
 }
 } // namespace
 
 void callOnDirtyStack(int mode, size_t bytes, uint64_t seed, size_t shift, const std::function<void()> &f) {
-  if (mode != STACK_CLEAN && bytes) dirtyBelow(mode, bytes, seed);
-  callShifted(shift & ~15ull, f);
+  if (g_onPrivateStack) { f(); return; }
+  if (!g_stack) {
+    void *m = mmap((void *)kStackAt, kStackSize, PROT_READ | PROT_WRITE, MAP_PRIVATE | MAP_ANONYMOUS | MAP_NORESERVE | MAP_FIXED_NOREPLACE, -1, 0);
+    if (m != (void *)kStackAt) { std::fprintf(stderr, "sim: cannot map the private stack at %p\n", (void *)kStackAt); _exit(2); }
+    g_stack = (char *)m;
+  }
+  bytes = std::min((bytes + 4095) & ~(size_t)4095, kStackSize / 2);
+  shift = std::min(shift & ~(size_t)15, bytes / 2);
+  // Below the planned fill: fresh zero pages (nothing of an earlier run survives).
+  madvise(g_stack, kStackSize - bytes, MADV_DONTNEED);
+  fillStack(g_stack + kStackSize - bytes, mode, bytes, seed);
+  getcontext(&g_runCtx);
+  g_runCtx.uc_stack.ss_sp = g_stack;
+  g_runCtx.uc_stack.ss_size = kStackSize - shift;
+  g_runCtx.uc_link = &g_mainCtx;
+  makecontext(&g_runCtx, trampoline, 0);
+  g_runFn = &f;
+  g_runExc = nullptr;
+  g_onPrivateStack = true;
+  swapcontext(&g_mainCtx, &g_runCtx);
+  g_onPrivateStack = false;
+  if (g_runExc) { std::exception_ptr e = g_runExc; g_runExc = nullptr; std::rethrow_exception(e); }
+}
+
+// Address-space randomisation off for this process image (re-executes itself once).  Where the
+// kernel refuses, execution simply continues: the private stack and the arena still repeat, only
+// code and library addresses left behind as residue may differ between processes.
+void disableAslrOnce(char **argv) {
+  int pers = personality(0xffffffff);
+  if (pers == -1 || (pers & ADDR_NO_RANDOMIZE) || getenv("VERIF_ASLR_KEPT")) return;
+  if (personality(pers | ADDR_NO_RANDOMIZE) == -1) return;
+  setenv("VERIF_ASLR_KEPT", "1", 1);     // never loop if the flag does not stick
+  execv("/proc/self/exe", argv);
 }
 
 //=============================================================================================
